@@ -246,14 +246,14 @@ def run(ctx, deep=False):
     for s, reset in FIXED:
         ops = s.split(";")
         check(ops, replay_ops(ops, reset), reset)
-    n = 6000 if big else 600
+    n = 6000 if big else 450
     for i in range(n):
         reset = ctx.rng.choice(["rollback", "rollback", "commit", "none"])
         ops, recs = run_history(ctx.rng, ctx.rng.randint(1, 4), reset)
         check(ops, recs, reset)
         if i % 300 == 0:
             ctx.sample({"reset": reset, "ops": ";".join(ops), "last": recs[-1]})
-    n2 = 1200 if big else 120
+    n2 = 1200 if big else 100
     for i in range(n2):
         reset = ctx.rng.choice(["rollback", "commit"])
         pc = ctx.rng.choice(OTHER_POOLS)
@@ -261,7 +261,7 @@ def run(ctx, deep=False):
         check(ops, recs, reset, pc)
     # connection characteristics (several execution_options calls, engine- and connection-level)
     # and BaseException during reset-on-return, on every pool class: oracle only
-    n3 = 2400 if big else 220
+    n3 = 2400 if big else 180
     for i in range(n3):
         reset = ctx.rng.choice(["rollback", "rollback", "commit"])
         pc = ctx.rng.choice(["QueuePool", "QueuePool"] + OTHER_POOLS)
